@@ -630,6 +630,9 @@ func (c *collector) header(b *strings.Builder) {
 		if pegDefs != "" && (d.Name == "peg.delta" || d.Name == "peg.init" || d.Name == "peg.acc" || d.Name == "peg.owner" || d.Name == "peg.only" || d.Name == "peg.insym") {
 			continue
 		}
+		if _, isGhost := ghostDefs[d.Name]; isGhost {
+			continue
+		}
 		b.WriteString("(declare-fun " + d.Name + " (")
 		for i, a := range d.Args {
 			if i > 0 {
@@ -639,6 +642,7 @@ func (c *collector) header(b *strings.Builder) {
 		}
 		b.WriteString(") " + d.Ret.S + ")\n")
 	}
+	b.WriteString(ghostDefsText(c.decls))
 }
 
 // ForallNorm builds forall vars. guards => body in a normal form that solvers instantiate well:
